@@ -134,6 +134,12 @@ func vhCommandTable() []vhCmd {
 		{[]string{"EVALRO", "return tile38.call('set','fleet','truck9','POINT',1,2)", "0"}, vhRead, nil},
 		{[]string{"EVALRO", "return tile38.call('get','fleet','truck1')", "0"}, vhRead, nil},
 		{[]string{"EVALRO", "return tile38.call('jdel','user','u1','name')", "0"}, vhRead, nil},
+		// a script may assign to the globals its call was given: the class of the call must not depend on them
+		{[]string{"EVALRO", "EVAL_CMD = 'eval' return tile38.call('set','fleet','truck9','POINT',1,2)", "0"}, vhRead, nil},
+		{[]string{"EVALRO", "EVAL_CMD = 'evalna' return tile38.call('del','fleet','truck1')", "0"}, vhRead, nil},
+		{[]string{"EVALNA", "EVAL_CMD = 'eval' return tile38.call('set','fleet','truck9','POINT',1,2)", "0"}, vhWrite,
+			[][]string{{"set", "fleet", "truck9", "POINT", "1", "2"}}},
+		{[]string{"EVALNA", "EVAL_CMD = 'eval' return tile38.call('get','fleet','truck1')", "0"}, vhRead, nil},
 		{[]string{"GET", "fleet", "truck1"}, vhRead, nil},
 		{[]string{"KEYS", "*"}, vhRead, nil},
 		{[]string{"SCAN", "fleet"}, vhRead, nil},
